@@ -169,3 +169,30 @@ REG.add(Contract(f"{NG}._initialise", module=M_NX, kind="method", params=dict(se
                  loops={0: dict(sig="for imp in self._imports", invariant=_FRAME + _UPPER + [e.replace("%I%", "seen") for e in _EXACT]),
                         1: dict(sig="for (parent, child) in zip(all_importee_modules[:-1], all_importee_modules[1:])", invariant=_INNER)},
                  properties=["C02", "C04", "C09", "C13"]))
+
+# ---------------------------------------------------------------- __init__: the graph of a freshly constructed NetworkxGraph
+REG.add(Contract("networkx.DiGraph", status="assumed", params=dict(), returns="DiGraph",
+                 ensures=["forall(Node, lambda x: not (x in result.nodes))", "forall(Node, Node, lambda a, b: not ((a, b) in result.edges))",
+                          "forall(Node, Node, lambda a, b: not ((a, b) in result.inh))"],
+                 note="networkx: DiGraph() is the empty graph"))
+REG.add(Contract("networkx.freeze", status="assumed", params=dict(G="DiGraph"), returns="DiGraph", defn="G",
+                 note="networkx: freeze(G) blocks later mutation and returns G; nodes, edges and attributes are untouched"))
+_G = "self._graph"
+REG.add(Contract(f"{NG}.__init__", module=M_NX, kind="method",
+                 params=dict(self=NG, all_modules="Bag[Node]", imports="Bag[Opaque[ImportN]]", level_limit="Opt[Int]"), defaults=dict(level_limit="None"),
+                 returns="None", modifies=["self"],
+                 ensures=[
+                     "self._all_modules == all_modules", "self._imports == imports", "self._level_limit == level_limit",
+                     # C04 / C09 / C02 / C13 (a): the nodes are EXACTLY the flattened names of the modules, of their dotted ancestors and of the dotted ancestors of
+                     # importers; (b) nothing else -- in particular an importee that is not a module (nor such an ancestor) is not a node
+                     f"forall(Node, lambda x: ((x in {_G}.nodes) == init_node(level_limit, all_modules, imports, x)))",
+                     # "only those": every edge joins two nodes and is a hierarchy pair or the pair of an import; inherits=True only on hierarchy pairs;
+                     # an edge with inherits=False (what the queries treat as an import) is the flattened pair of an import statement's record
+                     f"forall(Node, Node, lambda a, b: implies((a, b) in {_G}.edges, (a in {_G}.nodes) and (b in {_G}.nodes) and (init_hpair(level_limit, all_modules, imports, a, b) or init_ipair(level_limit, imports, a, b))))",
+                     f"forall(Node, Node, lambda a, b: implies((a, b) in {_G}.inh, ((a, b) in {_G}.edges) and init_hpair(level_limit, all_modules, imports, a, b)))",
+                     f"forall(Node, Node, lambda a, b: implies(((a, b) in {_G}.edges) and not ((a, b) in {_G}.inh), init_ipair(level_limit, imports, a, b)))",
+                     # every import between two (flattened) modules / module ancestors that differ is an edge of the graph
+                     "forall(Opaque[ImportN], lambda i: implies((i in imports) and flat(level_limit, impn_importer(i)) != flat(level_limit, impn_importee(i)) and "
+                     "chain_node(level_limit, all_modules, flat(level_limit, impn_importer(i))) and chain_node(level_limit, all_modules, flat(level_limit, impn_importee(i))), "
+                     f"(flat(level_limit, impn_importer(i)), flat(level_limit, impn_importee(i))) in {_G}.edges))"],
+                 properties=["C02", "C04", "C09", "C13"]))
